@@ -684,7 +684,7 @@ void vf_run(vf::Ctx& c)
     init_configs();
     // fill prefix: keys 2,4,6 into A and 3,5 into B (code 0 is an insertion for both owners; full owners keep what fits)
     c03::run_pairs(c, {RawOp{0, 0, 0, 2}, RawOp{0, 0, 0, 6}, RawOp{0, 0, 0, 10}, RawOp{0, 0, 0, 5}, RawOp{0, 0, 0, 9}});
-    c03::run_histories(c, 800, 9000, 30);
+    c03::run_histories(c, 2400, 18000, 30);
 }
 
 std::string vf_replay(std::string const&, std::string const& cs)
